@@ -19,7 +19,7 @@ import (
 )
 
 type c08Item struct {
-	Kind string   `json:"kind"` // ok | initerr | initerr.idle | crash.next | crash.resp | crash.idle | timeout.resp | timeout.init | ext.initerr | ext.exiterr | ext.stall | internal
+	Kind string   `json:"kind"` // ok | initerr | initerr.idle | crash.next | crash.resp | crash.idle | timeout.resp | timeout.init | ext.initerr | ext.exiterr | ext.shuterr | ext.stall | internal
 	Exts []string `json:"exts"` // subscriptions per extension file a0, a1 ("I", "IS", "S", "-")
 	N    int      `json:"n,omitempty"`
 }
@@ -151,6 +151,12 @@ func (c *c08Case) scenario(withPrefix bool) *Scenario {
 			needReset = false
 		case "ext.exiterr":
 			exs[0] = Script{Steps: []Step{{Op: "ext.loop", Events: []string{"INVOKE"}, Count: 1}, {Op: "ext.exiterror", ErrType: "Extension.PrefixExit"}, {Op: "exit", Code: 3}}}
+			needReset = false
+		case "ext.shuterr":
+			// a runtime fault; while that environment is torn down its extension answers the SHUTDOWN event with an exit
+			// error report: a fault recorded *during* the reset belongs to the old environment too
+			rt = Script{Steps: []Step{{Op: "rt.next"}, {Op: "exit", Code: 7}}}
+			exs[0] = Script{Steps: []Step{{Op: "ext.loop", Events: []string{"INVOKE", "SHUTDOWN"}, OnShut: "exiterr"}}}
 			needReset = false
 		case "ext.stall":
 			exs[0] = Script{Steps: []Step{{Op: "ext.register", Events: subsOf(it.Exts[0])}, {Op: "stall"}}}
@@ -578,7 +584,7 @@ func c08GenExts(t *rapid.T, label string) []string {
 func c08Gen(t *rapid.T) c08Case {
 	var c c08Case
 	n := rapid.IntRange(1, 3).Draw(t, "prefix")
-	kinds := []string{"ok", "ok", "initerr", "crash.next", "crash.resp", "crash.idle", "timeout.resp", "timeout.init", "ext.initerr", "ext.exiterr", "ext.stall", "internal"}
+	kinds := []string{"ok", "ok", "initerr", "crash.next", "crash.resp", "crash.idle", "timeout.resp", "timeout.init", "ext.initerr", "ext.exiterr", "ext.shuterr", "ext.stall", "internal"}
 	for k := 0; k < n; k++ {
 		it := c08Item{Kind: rapid.SampledFrom(kinds).Draw(t, fmt.Sprintf("kind%d", k)), Exts: c08GenExts(t, fmt.Sprintf("pe%d", k)), N: rapid.IntRange(0, 1).Draw(t, fmt.Sprintf("n%d", k))}
 		if strings.HasPrefix(it.Kind, "ext.") && len(it.Exts) == 0 {
@@ -586,6 +592,9 @@ func c08Gen(t *rapid.T) c08Case {
 		}
 		if it.Kind == "ext.exiterr" {
 			it.Exts[0] = "I"
+		}
+		if it.Kind == "ext.shuterr" {
+			it.Exts[0] = "IS"
 		}
 		if k == 0 && rapid.IntRange(0, 9).Draw(t, "idleInitErr") == 0 {
 			it.Kind = "initerr.idle"
@@ -621,6 +630,7 @@ func c08Fixed() []c08Case {
 		// the recorded first fault of an earlier generation (an extension's) must not name the fault of a later one (the runtime's)
 		{Prefix: []c08Item{{Kind: "ext.exiterr", Exts: []string{"I"}}}, Suffix: c08Suffix{Kind: "crash"}},
 		{Prefix: []c08Item{{Kind: "ext.initerr", Exts: []string{"IS"}}, {Kind: "ok"}}, Suffix: c08Suffix{Kind: "crash", Exts: []string{"I"}}},
+		{Prefix: []c08Item{{Kind: "ext.shuterr", Exts: []string{"IS"}}}, Suffix: c08Suffix{Kind: "crash"}},
 		{Prefix: []c08Item{{Kind: "initerr.idle", Exts: []string{"IS"}}, {Kind: "ok"}}, Suffix: c08Suffix{Kind: "timeout", Exts: []string{"I"}}},
 		// barrier counts of an earlier generation: internal extension polls before the runtime, after a generation without extensions
 		{Prefix: []c08Item{{Kind: "ok"}}, Suffix: c08Suffix{Kind: "internal.first"}},
